@@ -39,14 +39,20 @@ def main():
     meta["ran"].append({"cmd": "cmake --build _build && ctest (with patch)", "result": r.stdout.strip().split("\n")[-1]})
     suite_ok = "100% tests passed, 0 tests failed out of 71" in r.stdout
     exe = "/tmp/wt/confirm_demo"
-    cc = "g++ -std=c++17 -O1 -g -pthread -I%s/code/include -I%s/code/tests/rlbox %s -o %s -ldl" % (WT, WT, demo, exe)
+    os.makedirs("/tmp/wt/confirm_demo_dir", exist_ok=True)
+    pre = ""
+    if "DEMO_LIB" in open(demo).read():
+        # demonstrations that build two tiny shared libraries from the same file and load them from the working directory
+        pre = ("g++ -std=c++17 -shared -fPIC -DDEMO_LIB=1 %s -o /tmp/wt/confirm_demo_dir/libdemo_one.so && "
+               "g++ -std=c++17 -shared -fPIC -DDEMO_LIB=2 %s -o /tmp/wt/confirm_demo_dir/libdemo_two.so && " % (demo, demo))
+    cc = pre + "g++ -std=c++17 -O1 -g -pthread -rdynamic -I%s/code/include -I%s/code/tests/rlbox %s -o %s -ldl" % (WT, WT, demo, exe)
     r = sh(cc + " 2>&1 | tail -5")
-    r1 = sh("timeout 300 %s >/dev/null 2>&1; echo $?" % exe)
+    r1 = sh("cd /tmp/wt/confirm_demo_dir && timeout 300 %s >/dev/null 2>&1; echo $?" % exe)
     with_rc = r1.stdout.strip().split("\n")[-1]
     meta["ran"].append({"cmd": "demo built and run WITH the patch", "result": "exit " + with_rc})
     sh("git -C %s checkout -- ." % WT)
     r = sh(cc + " 2>&1 | tail -5")
-    r2 = sh("timeout 300 %s >/dev/null 2>&1; echo $?" % exe)
+    r2 = sh("cd /tmp/wt/confirm_demo_dir && timeout 300 %s >/dev/null 2>&1; echo $?" % exe)
     without_rc = r2.stdout.strip().split("\n")[-1]
     meta["ran"].append({"cmd": "demo built and run WITHOUT the patch", "result": "exit " + without_rc})
     demo_ok = with_rc != "0" and without_rc == "0"
